@@ -18,6 +18,9 @@ func DefaultsUniverse() *Universe {
 	for k, n := range map[Kind]string{Int32: "TrInt32", Int64: "TrInt64", Float32: "TrFloat32", Float64: "TrFloat64", Bool: "TrBool", String: "TrString", Bytes: "TrBytes"} {
 		trs[k] = u.Typeref(n, k)
 	}
+	allDef := u.Record("RecAllDef", nil, Def("x", P(Int32), "50"), Def("tags", ArrayOf(P(String)), `["a","b"]`), Opt("o", P(String)))
+	unAllDef := u.Union("UAllDef", false, MemberOf(P(Int32)), MemberOf(allDef))
+	nestAllDef := u.Record("RecNestAllDef", nil, Def("inner", allDef, `{"x":2}`), Opt("io", allDef))
 	type tl struct {
 		t   *Type
 		lit string
@@ -42,6 +45,10 @@ func DefaultsUniverse() *Universe {
 		{ArrayOf(small), `[{"a":1},{"a":2,"b":"z"}]`}, {ArrayOf(recd), `[{"r":7}]`}, {ArrayOf(e3), `["RED","BLUE"]`}, {ArrayOf(P(Bytes)), `["AB",""]`},
 		{MapOf(P(Int32)), `{}`}, {MapOf(P(Int32)), `{"k":1,"j":2}`}, {MapOf(MapOf(P(Int32))), `{"k":{}}`}, {MapOf(MapOf(P(Int32))), `{"k":{"i":1}}`},
 		{MapOf(P(String)), `{"a b":"c\"d"}`}, {MapOf(small), `{"x":{"a":1}}`}, {MapOf(ArrayOf(P(Float64))), `{"f":[1.5,2.5]}`}, {MapOf(un), `{"u":{"int":1}}`},
+		// records all of whose fields are defaulted or optional: the literal {} (and partial literals)
+		// must still yield the nested record's own defaults, at any position
+		{allDef, `{}`}, {allDef, `{"x":1}`}, {ArrayOf(allDef), `[{},{"tags":[]}]`}, {MapOf(allDef), `{"k":{}}`}, {unAllDef, `{"d.RecAllDef":{}}`},
+		{nestAllDef, `{}`}, {nestAllDef, `{"inner":{}}`},
 	}
 	const per = 5
 	for i := 0; i < len(cases); i += per {
